@@ -131,7 +131,7 @@ end
 
 /-- a loop over elements that occupy no byte still runs `size` times in the Go code
     (`varReader`); beyond this many iterations the model reports `hang` -/
-def zeroLoopLimit : Nat := 16777216
+def zeroLoopLimit : Nat := 1048576
 
 mutual
 /-- `Type.Reader().Read(r)`: returns the bytes of one value of the type and the rest.
